@@ -419,6 +419,11 @@ fn run_programs(progs: &[&Prog], kmap: &[usize; 3], bin: bool, env: u64, st: &mu
         }
         cmds.push(ping());
     }
+    // every other environment: the client says goodbye right behind the sentinel, in the same
+    // burst (a reply must not be left unflushed because the connection is about to end)
+    if env % 2 == 1 {
+        cmds.push(quit());
+    }
     let mut conv = Conv::new(cmds);
     env_conv(env, &mut conv);
     let s = conv.stream();
@@ -493,7 +498,7 @@ fn run_programs(progs: &[&Prog], kmap: &[usize; 3], bin: bool, env: u64, st: &mu
                 // nothing malformed may have reached the transport: everything written must be a
                 // decodable prefix of a response
                 let n_ok = prog_cmd_idx[pi];
-                match decode_all(&o.sim.out, &conv, &s.last_seq, n_ok + 1, true) {
+                match decode_all(delivered(&o), &conv, &s.last_seq, n_ok + 1, true) {
                     Ok(_) => {}
                     Err(e) if e.contains("server output ends where") => {}
                     Err(e) => {
@@ -511,7 +516,7 @@ fn run_programs(progs: &[&Prog], kmap: &[usize; 3], bin: bool, env: u64, st: &mu
     if o.sim.flushed != o.sim.out.len() {
         return Err(Violation::new("unflushed-tail", "bytes written but never flushed"));
     }
-    let d = decode_all(&o.sim.out, &conv, &s.last_seq, conv.cmds.len(), false).map_err(|e| Violation::new("response-undecodable", e))?;
+    let d = decode_all(delivered(&o), &conv, &s.last_seq, conv.cmds.len(), false).map_err(|e| Violation::new("response-undecodable", e))?;
     for (pi, it) in interps.iter().enumerate() {
         let ci = prog_cmd_idx[pi];
         compare_units(&d.replies[ci], &it.units, bin).map_err(|e| Violation::new("response-differs", format!("program {}: {}", pi, e)))?;
